@@ -208,6 +208,38 @@ def run(ck: Check):
                 ck.disagree("the eval-mode output of a layer depends on its sampling mode / differs between calls (eval must not sample)",
                             dict(case, mode=bad[0][0], call=bad[0][1], differing=int((outs[bad[0][0]][bad[0][1]] != base).sum())),
                             signature={"layer": kind, "param": par, "what": "eval-depends-on-mode"})
+    # hard training = eval AFTER the parameters were rewritten on a live layer that has already been evaluated (an eval-time cache must
+    # follow every way of writing a parameter: copy_, .data assignment / indexing / arithmetic, load_state_dict, an optimizer step)
+    from harness import protocols
+    from torchlogix.layers import LogicConv2d as _LCu, LogicDense as _LDu
+    for lname in ("conv2d", "dense"):
+        for how in protocols.UPDATES:
+            torch.manual_seed(ck.seed + 31)
+            if lname == "conv2d":
+                lay_u = _LCu(in_dim=(3, 3), device="cpu", channels=1, num_kernels=3, tree_depth=1, receptive_field_size=2,
+                             weight_init="random", forward_sampling="hard")
+                w_u = lay_u.tree_weights[0][0]
+                xu = (torch.rand(32, 1, 3, 3) > 0.5).float()
+            else:
+                lay_u = _LDu(4, 6, device="cpu", weight_init="random", forward_sampling="hard")
+                w_u = lay_u.weight
+                xu = (torch.rand(32, 4) > 0.5).float()
+            with torch.no_grad():
+                lay_u.eval(); lay_u(xu); lay_u.train(); lay_u(xu); lay_u.eval(); lay_u(xu)
+            gl_u, rows_u = protocols._new_rows(ck.rng, w_u.shape[0], "raw")
+            protocols.apply_update(ck.rng, lay_u, w_u, rows_u, how)
+            w_now = lay_u.tree_weights[0][0] if lname == "conv2d" else lay_u.weight
+            if nets.own_gate_ids(w_now, "raw") != gl_u:
+                continue
+            case_u = {"layer": lname, "param": "raw", "update": how, "what": "hard-vs-eval after update"}
+            ck.case(case_u, nontrivial=True, kind="update-" + how)
+            with torch.no_grad():
+                lay_u.eval(); ye_u = lay_u(xu)
+                lay_u.train(); yt_u = lay_u(xu)
+            if not torch.equal(ye_u, yt_u):
+                ck.disagree("after a parameter update on a live layer, hard training output differs from eval output on Boolean inputs",
+                            dict(case_u, differing=int((ye_u != yt_u).sum())), observed=float((ye_u - yt_u).abs().max()),
+                            signature={"layer": lname, "what": "stale-after-update", "update": how})
     return ck.finish()
 
 
